@@ -169,11 +169,16 @@ func (m *Manager) rebroadcastLastBlock(ctx context.Context, height uint64) {
 	if missingHeader {
 		if err := m.headerStore.Append(ctx, header); err != nil {
 			m.logger.Error("cannot hand the last header to the P2P store", "height", height, "error", err)
+		} else if _, err := m.headerStore.GetByHeight(ctx, height); err != nil {
+			// (the store takes writes asynchronously: its head must show this height before the next block is broadcast)
+			m.logger.Error("the P2P store does not show the last header", "height", height, "error", err)
 		}
 	}
 	if missingData {
 		if err := m.dataStore.Append(ctx, data); err != nil {
 			m.logger.Error("cannot hand the last data to the P2P store", "height", height, "error", err)
+		} else if _, err := m.dataStore.GetByHeight(ctx, height); err != nil {
+			m.logger.Error("the P2P store does not show the last data", "height", height, "error", err)
 		}
 	}
 }
